@@ -40,7 +40,7 @@ theorem failed_fork_sticks {g : List NodeInfo} {s : State} {e : Ev} {n f : Nat} 
   apply failed_fork_meta_fails_fork
   apply fail_sticks hr _ h
   intro he; subst he
-  have := resetOk_isJob (en_reset hen); simp [Role.isJob] at this
+  have := resetOk_isJob (reach_full hr) (en_reset hen); simp [Role.isJob] at this
 
 /-- a failed job object fails its fork unless the fork's own metadata already
 says complete/disabled or a later phase object hides it: precisely, a failed
